@@ -62,7 +62,7 @@ type exRec struct {
 	Out     *obsVal      `json:"out"`
 }
 
-func opTok(v string) exTok { return exTok{K: "op", V: v, CS: []int{}} }
+func opTok(v string) exTok  { return exTok{K: "op", V: v, CS: []int{}} }
 func numTok(v string) exTok { return exTok{K: "num", V: v, CS: []int{}} }
 func strTok(v string) exTok { return exTok{K: "str", V: v, CS: bytesOf(v)} }
 func idTok(v string) exTok  { return exTok{K: "id", V: v, CS: []int{}} }
@@ -187,7 +187,8 @@ func rndOperand(rng *rand.Rand, kind string) []exTok {
 		if rng.Intn(4) == 0 {
 			return []exTok{idTok("s")}
 		}
-		return []exTok{strTok([]string{"a", "ab", "b", "ba", "^a", "b$", "a.", ""}[rng.Intn(8)])}
+		// (strings which look like numbers are strings: compared as text, no operands of arithmetic)
+		return []exTok{strTok([]string{"a", "ab", "b", "ba", "^a", "b$", "a.", "", "2", "10", "9", "1.5"}[rng.Intn(12)])}
 	case "bool":
 		return []exTok{[]exTok{kwTok("true"), kwTok("false"), idTok("tt"), idTok("ff")}[rng.Intn(4)]}
 	case "null":
